@@ -29,11 +29,17 @@ MANIFEST = {
             'includes the empty string).  Family order: every ordered '
             'triple of requests (statistic, column) over two columns and '
             'six statistics is rendered; each printed value must be that '
-            'of its own column whatever was requested before.',
+            'of its own column whatever was requested before.  Family '
+            'names: the same data under the variable names item, key, '
+            'index, count, n, var, number, mean, x_y give the statistics '
+            'they give under x.  Domain offset: values around 1e6 with a '
+            'spread of 1.',
     'note': 'Trusted: the Fraction-based reference in this driver; floats '
             'are compared to 1e-9 relative (absolute 1e-12; 1e-6 for a '
             'standard deviation whose true value is 0, because sqrt '
-            'amplifies rounding).',
+            'amplifies rounding); for magnitudes above 1000 the variance '
+            'tolerance allows 128 ulp of the squared magnitude (rounding of '
+            'a one-pass sum of squares).',
 }
 RULE = ('all lists of length 1..5 (quick) / 1..7 (thorough) over the numeric '
         'domain {-1, 0, 2, 3, 0.1, 0.5, 2.5, None, attribute-missing} and '
